@@ -1,5 +1,5 @@
 #!/usr/bin/env python3
-"""Behaviour-preserving refactorings (negative twins): apply each to /repo, run the quick checks, undo.
+"""Behaviour-preserving refactorings (negative twins): apply each to a scratch copy of /repo/src, run the quick checks on it (OPTYX_REPO), remove it.
 exit 1 on such a change is a FALSE ALARM of the check; exit 2 (cannot decide) is acceptable; 0 is the goal.
 usage: run_refactors.py [id ...]   writes refactors/INDEX.md on a full run."""
 import json, os, subprocess, sys
@@ -7,31 +7,17 @@ HERE = os.path.dirname(os.path.dirname(os.path.abspath(__file__)))
 REF = os.path.join(HERE, "refactors")
 PROPS = ["C%02d" % i for i in range(1, 21)]
 
-def git(*a):
-    return subprocess.run(["git", "-C", "/repo", *a], capture_output=True, text=True)
-
-def run_checks():
-    procs = {p: subprocess.Popen([os.path.join(HERE, "check"), p], stdout=subprocess.PIPE, stderr=subprocess.STDOUT, text=True, cwd=HERE, env=dict(os.environ, OPTYX_NO_EVIDENCE="1")) for p in PROPS}
-    out = {}
-    for p, pr in procs.items():
-        text = pr.communicate()[0]
-        out[p] = (pr.returncode, [l.strip() for l in text.splitlines() if (l.startswith("  ") and ": R" in l) or "ANALYSIS-ERROR" in l][:3])
-    return out
+sys.path.insert(0, os.path.dirname(os.path.abspath(__file__)))
+from _scratch import run_many
 
 def main():
-    if git("status", "--porcelain").stdout.strip():
-        print("/repo not clean"); return 2
     ids = sys.argv[1:] or sorted(d for d in os.listdir(REF) if os.path.isdir(os.path.join(REF, d)) and not d.startswith("_"))
+    results = run_many([(rid, os.path.join(REF, rid, "patch.diff")) for rid in ids])
     rows = []
     for rid in ids:
-        d = os.path.join(REF, rid)
-        try:
-            r = git("apply", os.path.join(d, "patch.diff"))
-            if r.returncode:
-                rows.append((rid, {}, "patch no longer applies")); print(rid, "patch no longer applies"); continue
-            res = run_checks()
-        finally:
-            git("checkout", "--", ".")
+        res = results[rid]
+        if res is None:
+            rows.append((rid, {}, "patch no longer applies")); print(rid, "patch no longer applies"); continue
         alarms = {p: v for p, v in res.items() if v[0] == 1}
         undec = {p: v for p, v in res.items() if v[0] == 2}
         rows.append((rid, res, ""))
